@@ -1,72 +1,113 @@
 (* Property theorems for C17 -- statements only; proofs are `exact` of lemmas.
-   The model is `step` of C02/Model.v (see C17/IoPos.v for what of iopos.c / getdata.c / flush.c it contains). *)
+   Model: `step` of C02/Model.v (get_iopos = _GD_GetIOPos, seek_field = _GD_Seek incl. pseudo
+   positions, gd_seek64 SET/CUR/END, GD_HERE in do_field, close_field/_GD_Flush, CAuto).
+   All statements: any libbz2-conforming decoder and buffer size, any well-formed field table
+   on a tree with the six read-path repairs, any reachable handle state (InvH). *)
 From Coq Require Import ZArith List Bool.
-From GD Require Import C02.Model C02.CodecProofs C02.HistoryProofs C02.Refutations C17.IoPos.
+From GD Require Import C02.Model C02.CodecProofs C02.HistoryProofs C02.Handle C02.Refutations C17.IoPos C17.Pointers.
 Import ListNotations.
 Local Open Scope Z_scope.
 
-(* A newly opened RAW field's I/O pointer is at its beginning-of-field (any encoding, any decoder) *)
+(* A newly opened RAW field's I/O pointer is at its beginning-of-field *)
 Theorem fresh_at_bof :
   forall dec d f r, is_raw d f r -> snd (step dec d (init d) (CTell f)) = RPos (rd_foff (get_rd d r)).
 Proof. exact fresh_at_bof_l. Qed.
 
-(* gd_flush / gd_raw_close reset the pointer to the beginning-of-field: from ANY handle state
-   between calls (recurse_level = 0), i.e. after any history *)
+(* gd_flush / gd_raw_close (and the LRU auto-close) reset the pointer, after any history *)
 Theorem flush_resets :
   forall dec d s f r, is_raw d f r -> s_level s = 0 ->
     snd (step dec d (fst (step dec d s (CClose None))) (CTell f)) = RPos (rd_foff (get_rd d r)).
 Proof. exact flush_resets_l. Qed.
-
 Theorem auto_close_resets :
   forall dec d s f r, is_raw d f r -> s_level s = 0 -> (r < length (s_raws s))%nat ->
     snd (step dec d (fst (step dec d s (CAuto r))) (CTell f)) = RPos (rd_foff (get_rd d r)).
 Proof. exact auto_close_resets_l. Qed.
 
-(* gd_seek(GD_SEEK_SET) to p between the beginning- and the end-of-field establishes and returns
-   exactly p, gd_tell then reports p, and the recursion counter is back at 0 -- from any state
-   whose cursor is coherent (C02 invariant); RAW fields of raw/gzip/text files.
-   (partial: GD_SEEK_CUR/END, bzip2/lzma/sie and derived fields are validated by the
-   correspondence run only) *)
-Theorem seek_establishes_partial :
-  forall dec d s f r p,
-    is_raw d f r -> s_level s = 0 -> (r < length (s_raws s))%nat ->
-    wf_rd (get_rd d r) -> plain_enc (get_rd d r) ->
-    (r_open (get_rs s r) = true -> Coh (d_cfg d) (get_rd d r) (get_rs s r)) ->
-    rd_foff (get_rd d r) <= p <= rd_foff (get_rd d r) + nsamp (get_rd d r) ->
-    snd (step dec d s (CSeek f p WSet)) = RPos p /\
-    snd (step dec d (fst (step dec d s (CSeek f p WSet))) (CTell f)) = RPos p /\
-    s_level (fst (step dec d s (CSeek f p WSet))) = 0.
-Proof. exact seek_establishes_l. Qed.
+(* after a successful gd_getdata that transferred m > 0 samples starting at k, gd_tell reports k+m
+   (RAW fields, every encoding) *)
+Theorem tell_after_transfer :
+  forall BUF dec, (forall S, dec_ok BUF dec S) -> forall d, wf_db d ->
+  forall f r, nth_error (d_fields d) f = Some (FRaw r) ->
+  forall s k n, mult_ok d -> InvH d s -> 0 <= k <= 2 ^ 61 -> 0 <= n <= 2 ^ 61 -> spec_window d f k n <> [] ->
+    snd (step dec d (fst (step dec d s (CGet f (Some k) n))) (CTell f)) = RPos (k + len (spec_window d f k n)).
+Proof. exact tell_after_get_raw. Qed.
 
-(* a field whose inputs disagree on position reports GD_E_DOMAIN for gd_tell and for a GD_HERE
-   read instead of using a guess; after seeking the field itself the inputs agree (computed) *)
+(* gd_seek to a position between the beginning- and the end-of-field establishes and returns
+   exactly that position: GD_SEEK_SET, GD_SEEK_END (= gd_eof), GD_SEEK_CUR *)
+Theorem seek_set_establishes :
+  forall BUF dec, (forall S, dec_ok BUF dec S) -> forall d, wf_db d ->
+  forall f r, nth_error (d_fields d) f = Some (FRaw r) ->
+  forall s p, InvH d s -> rd_foff (get_rd d r) <= p <= rd_foff (get_rd d r) + nsamp (get_rd d r) ->
+    exists s', step dec d s (CSeek f p WSet) = (s', RPos p) /\ InvH d s' /\
+      r_open (get_rs s' r) = true /\ r_fpos (get_rs s' r) + rd_foff (get_rd d r) = p.
+Proof. exact seek_set_raw. Qed.
+Theorem seek_end_establishes :
+  forall BUF dec, (forall S, dec_ok BUF dec S) -> forall d, wf_db d ->
+  forall f r, nth_error (d_fields d) f = Some (FRaw r) ->
+  forall s off, InvH d s -> - nsamp (get_rd d r) <= off <= 0 ->
+    exists s', step dec d s (CSeek f off WEnd) = (s', RPos (rd_foff (get_rd d r) + nsamp (get_rd d r) + off)) /\ InvH d s' /\
+      r_open (get_rs s' r) = true /\
+      r_fpos (get_rs s' r) + rd_foff (get_rd d r) = rd_foff (get_rd d r) + nsamp (get_rd d r) + off.
+Proof. exact seek_end_raw. Qed.
+Theorem seek_cur_establishes :
+  forall BUF dec, (forall S, dec_ok BUF dec S) -> forall d, wf_db d ->
+  forall f r, nth_error (d_fields d) f = Some (FRaw r) ->
+  forall s off, InvH d s -> r_open (get_rs s r) = true ->
+    rd_foff (get_rd d r) <= r_fpos (get_rs s r) + rd_foff (get_rd d r) + off <= rd_foff (get_rd d r) + nsamp (get_rd d r) ->
+    exists s', step dec d s (CSeek f off WCur) = (s', RPos (r_fpos (get_rs s r) + rd_foff (get_rd d r) + off)) /\ InvH d s' /\
+      r_open (get_rs s' r) = true /\
+      r_fpos (get_rs s' r) + rd_foff (get_rd d r) = r_fpos (get_rs s r) + rd_foff (get_rd d r) + off.
+Proof. exact seek_cur_raw. Qed.
+
+(* gd_seek followed by a GD_HERE read transfers the same samples as the absolute call *)
+Theorem here_equals_absolute :
+  forall BUF dec, (forall S, dec_ok BUF dec S) -> forall d, wf_db d -> mult_ok d ->
+  forall f r, nth_error (d_fields d) f = Some (FRaw r) ->
+  forall s p n, InvH d s -> rd_foff (get_rd d r) <= p <= rd_foff (get_rd d r) + nsamp (get_rd d r) ->
+    p <= 2 ^ 61 -> 0 <= n <= 2 ^ 61 ->
+    let s' := fst (step dec d s (CSeek f p WSet)) in
+    snd (step dec d s' (CGet f None n)) = RData (spec_window d f p n) /\
+    snd (step dec d s' (CGet f (Some p) n)) = RData (spec_window d f p n).
+Proof. exact here_equals_absolute_l. Qed.
+
+(* sequential access equals random access: the GD_HERE read after reading [k, k+m) is the
+   window starting at k+m *)
+Theorem sequential_equals_random :
+  forall BUF dec, (forall S, dec_ok BUF dec S) -> forall d, wf_db d -> mult_ok d ->
+  forall f r, nth_error (d_fields d) f = Some (FRaw r) ->
+  forall s k n n2, InvH d s -> 0 <= k <= 2 ^ 60 -> 0 <= n <= 2 ^ 60 -> 0 <= n2 <= 2 ^ 61 -> spec_window d f k n <> [] ->
+    let s' := fst (step dec d s (CGet f (Some k) n)) in
+    snd (step dec d s' (CGet f None n2)) = RData (spec_window d f (k + len (spec_window d f k n)) n2).
+Proof. exact sequential_equals_random_l. Qed.
+
+(* a field whose inputs disagree on position reports GD_E_DOMAIN instead of using a guess (computed) *)
 Theorem multipos_is_error_witness :
   after (db2 cfg_all [FMult 0 1]) [CSeek 0 3 WSet; CSeek 1 5 WSet] (CTell 2) = RErr E_DOMAIN /\
   after (db2 cfg_all [FMult 0 1]) [CSeek 0 3 WSet; CSeek 1 5 WSet] (CGet 2 None 2) = RErr E_DOMAIN /\
   after (db2 cfg_all [FMult 0 1]) [CSeek 2 4 WSet] (CTell 2) = RPos 4.
 Proof. exact multipos_witness. Qed.
 
-(* full statement of the transfer rule for single-input derived fields ... *)
-Definition tell_after_transfer_statement (dec : list Z -> Z -> Z * bool) : Prop :=
-  forall d f s n l, 0 <= s -> 0 < n ->
-    snd (step dec d (init d) (CGet f (Some s) n)) = RData l -> l <> [] ->
-    snd (step dec d (fst (step dec d (init d) (CGet f (Some s) n))) (CTell f)) = RPos (s + len l).
-
-(* ... refuted through PHASE even in the otherwise repaired model: _GD_GetIOPos adds the shift and
-   _GD_Seek subtracts it, while reads use first_samp + shift; tell after reading p[3..5) says 9,
-   and the next GD_HERE read returns p[9] instead of p[5] *)
-Theorem tell_after_transfer_refuted : ~ tell_after_transfer_statement dec4.
+(* ---- PHASE: "and for every single-input field derived from it (shifted by PHASE)" *)
+Definition tell_after_transfer_statement := tell_after_transfer_statement_l.
+(* refuted for the convention the checked tree uses (flag fix_phase_sign off): _GD_GetIOPos adds the
+   shift, _GD_Seek subtracts it, reads add it *)
+Theorem tell_after_transfer_phase_refuted : ~ tell_after_transfer_statement dec4.
 Proof. exact tell_after_transfer_refuted_l. Qed.
-
 Theorem phase_pointer_witness :
   after (db2 cfg_all [FPhase 0 2]) [CGet 2 (Some 3) 2] (CTell 2) = RPos 9 /\
   after (db2 cfg_all [FPhase 0 2]) [CGet 2 (Some 3) 2] (CTell 0) = RPos 7 /\
   after (db2 cfg_all [FPhase 0 2]) [CGet 2 (Some 3) 2] (CGet 2 None 1) = RData [11] /\
   spec_window (db2 cfg_all [FPhase 0 2]) 2 5 1 = [7].
 Proof. exact phase_tell_witness. Qed.
-
-(* gd_seek followed by a GD_HERE read equals the absolute read, also through PHASE (computed) *)
-Theorem here_equals_absolute_witness :
+(* with proposed_fixes/C17-1.diff (flag on) the same histories obey the rule *)
+Theorem phase_pointer_repaired_witness :
+  after (db2 cfg_all7 [FPhase 0 2]) [CGet 2 (Some 3) 2] (CTell 2) = RPos 5 /\
+  after (db2 cfg_all7 [FPhase 0 2]) [CGet 2 (Some 3) 2] (CGet 2 None 1) = RData [7] /\
+  after (db2 cfg_all7 [FPhase 0 2]) [CSeek 2 5 WSet] (CTell 0) = RPos 7 /\
+  after (db2 cfg_all7 [FPhase 0 2]) [CSeek 2 5 WSet] (CGet 2 None 3) = RData [7; 8; 9].
+Proof. exact phase_fixed_witness. Qed.
+(* gd_seek on the PHASE field followed by GD_HERE equals the absolute read under either convention *)
+Theorem here_equals_absolute_phase_witness :
   after (db2 cfg_all [FPhase 0 2]) [CSeek 2 5 WSet] (CGet 2 None 3) = RData [7; 8; 9] /\
   after (db2 cfg_all [FPhase 0 2]) [] (CGet 2 (Some 5) 3) = RData [7; 8; 9].
 Proof. exact phase_seek_here_witness. Qed.
